@@ -93,7 +93,9 @@ def run_cases(ctx, cases, flavour):
     for i, (w, cfg) in enumerate(cases):
         lg = logs.get(i)
         if lg is None or lg["done"] is None:
-            out.append({"status": "watchdog" if res.timed_out else "died", "detail": "rc=%s %s" % (res.rc, res.err[-400:])})
+            # the harness process itself stopped (watchdog, fork failure on a loaded machine...): nothing is known about this case.
+            # An abort of SimGrid inside a case is reported by the parent as "DONE <tag> -1 6".
+            out.append({"status": "watchdog", "detail": "harness process rc=%s timed_out=%s %s" % (res.rc, res.timed_out, res.err[-200:])})
             continue
         code, sig = lg["done"]
         if sig == 14:
@@ -149,7 +151,7 @@ def judge(ctx, w, flavour, results, corrupt=None):
         ctx.evaluation()
         ctx.count("runs." + flavour)
         if r["status"] == "watchdog":
-            ctx.inconclusive("optim harness watchdog")
+            ctx.inconclusive("optim harness watchdog or lost case")
     if ref is None or ref["status"] == "watchdog":
         return
     died = [cfg for cfg, r in results.items() if r["status"] == "died"]
@@ -231,12 +233,23 @@ def base_kind(key, ref):
     return {"sleep": "sleep", "ctl": "control"}.get(key[0], "actor")
 
 
+def run_workloads(ctx, batch, flavour, corrupt=None):
+    """batch = [(workload, configurations or None)]: one harness process for all of them (the start-up of a sanitized process is what costs)."""
+    cases = []
+    spans = []
+    for w, cfgs in batch:
+        cfgs = list(cfgs or configs(w["ti"]))
+        if REF not in cfgs:
+            cfgs = [REF] + cfgs
+        spans.append((w, cfgs, len(cases)))
+        cases += [(w, c) for c in cfgs]
+    res = run_cases(ctx, cases, flavour)
+    for w, cfgs, at in spans:
+        judge(ctx, w, flavour, dict(zip(cfgs, res[at:at + len(cfgs)])), corrupt)
+
+
 def run_workload(ctx, w, flavour, cfgs=None, corrupt=None):
-    cfgs = cfgs or configs(w["ti"])
-    if REF not in cfgs:
-        cfgs = [REF] + list(cfgs)
-    res = run_cases(ctx, [(w, c) for c in cfgs], flavour)
-    judge(ctx, w, flavour, dict(zip(cfgs, res)), corrupt)
+    run_workloads(ctx, [(w, cfgs)], flavour, corrupt)
 
 
 # ------------------------------------------------------------------------------------------------ directed cases
@@ -296,28 +309,42 @@ def directed():
     return out
 
 
+ASAN_CFGS = [REF, ("Lazy", "Lazy"), ("Fullsel", "Fullsel")]
+
+
 def plan(ctx):
+    """[(workload, flavour, configurations or None for the whole matrix)]. The sanitizer flavour runs the agreeing directed workloads and one
+    generated workload in ten under the reference, the default (Lazy/Lazy), the selective Full and, when applicable, the TI configuration."""
     n = ctx.size(30, 1500)
     items = []
     for name, w, cfgs in directed():
-        items.append((w, "hooks"))
+        items.append((w, "hooks", cfgs))
+        if name in ("ti-profile-sharing", "multicore-all-features"):
+            items.append((w, "asan", ASAN_CFGS + ([("TI", "Lazy")] if w["ti"] else [])))
     for i in range(n):
         rng = ctx.sub_rng("w", i)
         ti = i % 2 == 0
         w = gen.gen_workload(rng, ti)
         if rng.random() < 0.3:
             w["netmodel"] = rng.choice(["CM02", "SMPI"])
-        items.append((w, "hooks"))
+        items.append((w, "hooks", None))
+        if i % 10 == 1:
+            items.append((w, "asan", ASAN_CFGS + ([("TI", "Lazy")] if w["ti"] else [])))
     return items
 
 
 def run(ctx):
     tmp = tempfile.mkdtemp(prefix="verif-C19-")
     try:
-        exe_of("hooks")
+        for fl in ("hooks", "asan"):
+            exe_of(fl)
         items = plan(ctx)
         ctx.sample({"workload": gen.workload_text(items[-1][0]).splitlines(), "configurations": [cfg_name(c) for c in configs(items[-1][0]["ti"])]})
-        ctx.pmap(lambda it: run_workload(ctx, it[0], it[1]), items)
+        asan = [(w, cfgs) for w, fl, cfgs in items if fl == "asan"]
+        per = 3 if ctx.tier == "quick" else 6
+        batches = [("asan", asan[i:i + per]) for i in range(0, len(asan), per)]
+        batches += [("hooks", [(w, cfgs)]) for w, fl, cfgs in items if fl == "hooks"]
+        ctx.pmap(lambda b: run_workloads(ctx, b[1], b[0]), batches)
     finally:
         shutil.rmtree(tmp, ignore_errors=True)
 
